@@ -224,8 +224,47 @@ def search(ctx, budget):
                 ctx.fail("C17:formula-subscript", f"chemical_formula({zs}, subscript=True) = {got_s!r}, expected {want_s!r}", {"op": "formula_sub", "arg": zs})
         except Exception as ex:  # noqa
             ctx.fail("C17:formula-exc", f"formula/sort of {zs} raised {type(ex).__name__}: {ex}", {"op": "formula", "arg": zs})
+    # every comparison operator on every ordered pair (complete: 103 x 103 x 6), against the stated order
+    import operator
+    els_all = [E.Element[z] for z in range(1, 104)]
+    for a in range(1, 104):
+        for b in range(1, 104):
+            ka, kb = key(a), key(b)
+            for nm, opf in (("lt", operator.lt), ("le", operator.le), ("gt", operator.gt), ("ge", operator.ge), ("eq", operator.eq), ("ne", operator.ne)):
+                try:
+                    got = bool(opf(els_all[a - 1], E.Element[b]))
+                except Exception as ex:  # noqa
+                    got = f"{type(ex).__name__}"
+                if got != opf(ka, kb):
+                    ctx.fail(f"C17:compare:{nm}", f"Element[{a}] {nm} Element[{b}] = {got}, the stated order gives {opf(ka, kb)}", {"op": "compare", "arg": [nm, a, b]})
+        ctx.case(["compare-row", a])
     # vectorised helpers
     import numpy as np
+    # the same bytes read with another integer type (a valid (N,) array followed by its re-interpretation): the range check must
+    # look at the numbers, whatever was asked before
+    for _ in range(n // 8):
+        zs = [rng.randint(1, 103) for _ in range(rng.choice([1, 2, 2, 4, 6]))]
+        dt = rng.choice([np.uint8, np.uint16, np.int32, np.int64])
+        arr = np.array(zs, dtype=dt)
+        views = [arr]
+        for dt2 in (np.uint8, np.uint16, np.int32, np.int64, np.int16):
+            if dt2 != dt and arr.nbytes % np.dtype(dt2).itemsize == 0:
+                views.append(arr.view(dt2))
+        ctx.case(["vector-views", zs, np.dtype(dt).name])
+        for f, col in ((E.cov_radii, 2), (E.vdw_radii, 3)):
+            for v in views:
+                vals = [int(x) for x in v.ravel()]
+                bad = any(not 1 <= x <= 103 for x in vals)
+                try:
+                    r = f(v)
+                    if bad:
+                        ctx.fail("C17:vector-reject", f"{f.__name__}({vals} as {v.dtype}) accepted an out-of-range atomic number (after {zs} as {arr.dtype})",
+                                 {"op": f.__name__, "arg": zs, "dtype": np.dtype(dt).name, "view": v.dtype.name})
+                    elif not np.allclose(np.ravel(r), [E._ELEMENT_DATA[z - 1][col] for z in vals], rtol=1e-6) or np.size(r) != len(vals):
+                        ctx.fail("C17:vector-value", f"{f.__name__}({vals} as {v.dtype}) = {list(np.ravel(r))}", {"op": f.__name__, "arg": zs, "dtype": np.dtype(dt).name, "view": v.dtype.name})
+                except Exception as ex:  # noqa
+                    if not bad:
+                        ctx.fail("C17:vector-exc", f"{f.__name__}({vals} as {v.dtype}) raised {type(ex).__name__}", {"op": f.__name__, "arg": zs, "dtype": np.dtype(dt).name, "view": v.dtype.name})
     for _ in range(n // 4):
         zs = [rng.randint(1, 103) for _ in range(rng.randint(1, 8))]
         bad = rng.random() < 0.4
